@@ -342,6 +342,8 @@ def check_c13(prop, tier, seed):
             ('opt', programs.cross3('opt', ('PRV',), ('X', 'XX', 'DNG', 'UPG'), ('S', 'SIX', 'X', 'PRV'), tag='pr3r'),
              dict(mode='random', max_exec=150 if q else 1500)),
             ('opt', programs.opt_quiesce(), dict(pb=1 if q else 2, max_exec=150 if q else 3000)),
+            ('opt', [p for p in programs.opt_quiesce() if '_PRV-' in p.split()[1]], dict(pb=2, max_exec=1500 if q else 15000)),
+            ('opt', [p.replace('_oq3_', '_oq3r_') for p in programs.opt_quiesce() if '_PRV-' in p.split()[1]], dict(mode='random', max_exec=400 if q else 4000)),
             ('opt', programs.opt_prepare() + programs.opt_mix3(), dict(pb=2 if q else 3, max_exec=3000 if q else 40000))]
     res = lock_abs_check(prop, tier, seed, ['CkPrepare', 'CkOptimistic', 'CkGuards', 'CkProgress', 'CkCompat'], plan)
     res['assumptions'] = LOCK_ASSUME + ['the harness builds the library with CPP_UTILITY_SPINLOCK_RETRY_NUM=1, so PrepareRead makes '
